@@ -100,7 +100,8 @@ fn render(f: &FileC) -> String {
       Line::Comment(c) => out.push(format!("{pad}// {}", ["note", "日本語のコメント", "émoji 😀😀", "foo(1) in a comment", "", "ü"][*c as usize % 6])),
       Line::Blank => out.push(String::new()),
       Line::Long(k) => {
-        let n = [600usize, 520, 70_000, 1_100][*k as usize % 4];
+        // multi-byte lines that pass 4 KiB and 8 KiB of one line, an ASCII line of 70 KB
+        let n = [600usize, 5_200, 70_000, 9_000][*k as usize % 4];
         let body = if k % 2 == 0 { "x".repeat(n) } else { "é".repeat(n / 2) };
         out.push(format!("{pad}let s = \"{body}\"; foo(9);"));
       }
